@@ -14,7 +14,11 @@ RULE = ("ordered pairs of automata: a random epsilon-NFA/NFA/DFA (0-4 states, 1-
         "_get_partition is compared, class order and member order included, with the step-faithful Hopcroft model "
         "(proved to yield the Nerode partition) and with the Nerode oracle. Non-trivial: first automaton has >=2 states, >=2 transitions, a "
         "start and a final state.")
-THEOREMS = ["Pfl.ENFA.isEquivalent_hopcroft_exact",
+THEOREMS = ["Pfl.ENFA.isoWalk_total",
+            "Pfl.ENFA.nerodeGroups_total",
+            "Pfl.ENFA.isReduced_total",
+            "Pfl.ENFA.langDiff_isSome",
+            "Pfl.ENFA.isEquivalent_hopcroft_exact",
             "Pfl.ENFA.minimize_enfa",
             "Pfl.ENFA.sameRight_iff",
             "Pfl.ENFA.nerodeGroups_spec",
